@@ -7,7 +7,7 @@ import random as _pyrandom
 from pvc.contract import Contract
 from pvc.sym import And, Or, Not, Implies, eq, lt, le, is_sym, smin, smax
 from . import fx
-from .net import Net, build_dcop, global_cost, local_cost, HandlerRaised
+from .net import Net, build_dcop, global_cost, local_cost, HandlerRaised, get_spec, make_net
 from .c_mgm import SPECS
 
 
@@ -61,13 +61,15 @@ def _check_moves(env, algo, net, mode, variables, tabs, varcost):
 
 def h_dsa(env):
     p = env.params
-    spec = SPECS[p["spec"]]
+    spec = get_spec(env, p, SPECS)
     k = p["stop_cycle"]
     mode = env.choice("mode", p.get("modes", ["min", "max"]))
     variables, cons, tabs, varcost = build_dcop(env, spec)
     ap = dict(p.get("algo_params", {}))
     ap["stop_cycle"] = k
-    net = Net(env, "dsa", mode, variables, cons, ap)
+    net = make_net(env, "dsa.computations-can-be-built", "dsa", mode, variables, cons, ap)
+    if net is None:
+        return
     if p.get("fixed_initial"):
         # initial values fixed to the first domain value instead of explored (keeps the 3-cycle shapes small)
         import pydcop.infrastructure.computations as IC
@@ -153,8 +155,14 @@ def _shapes_dsa(tier, prop=None):
         dict(spec="chain3", stop_cycle=3, modes=["min"], algo_params=dict(variant="A", **P1), policy="favor:x1", fixed_initial=True),
         dict(spec="chain3", stop_cycle=3, modes=["min"], algo_params=dict(variant="C", **P1), policy="starve:x3", fixed_initial=True),
     ]
+    # 4-6 variables, several cycles, real probabilities: decided by the sampled native pass only
+    big = [dict(spec="rand4", stop_cycle=4, algo_params=dict(variant="A"), sample_only=True, sample_factor=4, sample_part=0, policy="random", sched_seed=1),
+           dict(spec="rand5", stop_cycle=3, algo_params=dict(variant="B"), sample_only=True, sample_factor=4, sample_part=1, nary=True),
+           dict(spec="rand6", stop_cycle=3, algo_params=dict(variant="C", p_mode="arity"), sample_only=True, sample_factor=3, sample_part=2,
+                connected=False, policy="lifo", interleave_start=True)]
     if prop == "C10" and tier == "quick":
-        return [q[1], q[3], q[6]]
+        return [q[1], q[3], q[6], big[1]]
+    q = q + big
     if tier != "thorough":
         return q
     return q + [
@@ -190,10 +198,12 @@ Contract(
 
 def h_adsa(env):
     p = env.params
-    spec = SPECS[p["spec"]]
+    spec = get_spec(env, p, SPECS)
     mode = env.choice("mode", p.get("modes", ["min", "max"]))
     variables, cons, tabs, varcost = build_dcop(env, spec)
-    net = Net(env, "adsa", mode, variables, cons, dict(p.get("algo_params", {})))
+    net = make_net(env, "adsa.computations-can-be-built", "adsa", mode, variables, cons, dict(p.get("algo_params", {})))
+    if net is None:
+        return
     _wrap_moves(net, "adsa", lambda c: c.current_assignment)
     names = list(net.comps)
     try:
@@ -264,10 +274,12 @@ Contract(
 
 def h_dsatuto(env):
     p = env.params
-    spec = SPECS[p["spec"]]
+    spec = get_spec(env, p, SPECS)
     mode = env.choice("mode", p.get("modes", ["min"]))
     variables, cons, tabs, varcost = build_dcop(env, spec)
-    net = Net(env, "dsatuto", mode, variables, cons, {})
+    net = make_net(env, "dsatuto.computations-can-be-built", "dsatuto", mode, variables, cons, {})
+    if net is None:
+        return
 
     def view(c):
         # neighbour values handed to on_new_cycle for the round being evaluated
